@@ -1,0 +1,296 @@
+// Verification hooks (cargo feature `verif`, off by default).
+//
+// Nothing in this module changes behaviour unless an external harness installs a
+// controller: with the feature on and no controller every hook is a pass-through.
+//
+// * `controlled` wraps every task ractor spawns so that a harness can decide which
+//   ready task is polled next (one grant = one poll of the inner future).
+// * `point` marks a schedule point in a lock-free gap; a thread that registered itself
+//   with `thread_register` blocks there until the harness grants it one step.
+
+//! Verification hooks, only compiled with the `verif` feature.
+
+#![allow(missing_docs, missing_debug_implementations, unreachable_pub, dead_code)]
+
+use std::cell::RefCell;
+use std::future::Future;
+use std::pin::Pin;
+use std::sync::atomic::{AtomicBool, AtomicUsize, Ordering};
+use std::sync::{Arc, Condvar, Mutex};
+use std::task::{Context, Poll, Wake, Waker};
+
+// ===================================================================================
+// Controlled tasks
+// ===================================================================================
+
+/// Control block of one spawned task.
+pub struct TaskCtl {
+    pub id: usize,
+    pub name: String,
+    grants: AtomicUsize,
+    polls: AtomicUsize,
+    woken: AtomicBool,
+    done: AtomicBool,
+    outer: Mutex<Option<Waker>>,
+}
+
+impl TaskCtl {
+    /// Allow the task to be polled once more and make the runtime poll it.
+    pub fn grant(&self) {
+        self.grants.fetch_add(1, Ordering::SeqCst);
+        if let Some(w) = self.outer.lock().unwrap().clone() {
+            w.wake();
+        }
+    }
+    /// Number of times the inner future was polled.
+    pub fn polls(&self) -> usize {
+        self.polls.load(Ordering::SeqCst)
+    }
+    /// The inner future was woken since its last poll (or was never polled).
+    pub fn runnable(&self) -> bool {
+        !self.is_done() && self.woken.load(Ordering::SeqCst)
+    }
+    /// The inner future completed or was dropped.
+    pub fn is_done(&self) -> bool {
+        self.done.load(Ordering::SeqCst)
+    }
+    pub fn pending_grants(&self) -> usize {
+        self.grants.load(Ordering::SeqCst)
+    }
+}
+
+struct FlagWaker {
+    ctl: Arc<TaskCtl>,
+}
+impl Wake for FlagWaker {
+    fn wake(self: Arc<Self>) {
+        self.ctl.woken.store(true, Ordering::SeqCst);
+    }
+    fn wake_by_ref(self: &Arc<Self>) {
+        self.ctl.woken.store(true, Ordering::SeqCst);
+    }
+}
+
+/// Registry of controlled tasks.
+pub struct Controller {
+    tasks: Mutex<Vec<Arc<TaskCtl>>>,
+}
+
+impl Controller {
+    /// Snapshot of all tasks registered so far (in spawn order).
+    pub fn tasks(&self) -> Vec<Arc<TaskCtl>> {
+        self.tasks.lock().unwrap().clone()
+    }
+    pub fn task(&self, id: usize) -> Option<Arc<TaskCtl>> {
+        self.tasks.lock().unwrap().get(id).cloned()
+    }
+    pub fn len(&self) -> usize {
+        self.tasks.lock().unwrap().len()
+    }
+}
+
+static CONTROLLER: Mutex<Option<Arc<Controller>>> = Mutex::new(None);
+
+/// Install a fresh controller: every task spawned from now on is gated.
+pub fn install() -> Arc<Controller> {
+    let c = Arc::new(Controller {
+        tasks: Mutex::new(Vec::new()),
+    });
+    *CONTROLLER.lock().unwrap() = Some(c.clone());
+    c
+}
+
+/// Remove the controller: tasks spawned afterwards run freely (already gated tasks stay gated).
+pub fn uninstall() {
+    *CONTROLLER.lock().unwrap() = None;
+}
+
+/// Future wrapper used by `spawn_named`/`spawn_local`.
+pub struct Controlled<F: Future> {
+    inner: Option<Pin<Box<F>>>,
+    ctl: Option<Arc<TaskCtl>>,
+}
+
+impl<F: Future> Unpin for Controlled<F> {}
+
+/// Wrap a future that is about to be spawned.
+pub fn controlled<F: Future>(name: Option<&str>, future: F) -> Controlled<F> {
+    let ctl = CONTROLLER.lock().unwrap().as_ref().map(|c| {
+        let mut tasks = c.tasks.lock().unwrap();
+        let ctl = Arc::new(TaskCtl {
+            id: tasks.len(),
+            name: name.unwrap_or("").to_string(),
+            grants: AtomicUsize::new(0),
+            polls: AtomicUsize::new(0),
+            woken: AtomicBool::new(true),
+            done: AtomicBool::new(false),
+            outer: Mutex::new(None),
+        });
+        tasks.push(ctl.clone());
+        ctl
+    });
+    Controlled {
+        inner: Some(Box::pin(future)),
+        ctl,
+    }
+}
+
+impl<F: Future> Future for Controlled<F> {
+    type Output = F::Output;
+    fn poll(mut self: Pin<&mut Self>, cx: &mut Context<'_>) -> Poll<F::Output> {
+        let this = &mut *self;
+        let Some(ctl) = this.ctl.clone() else {
+            return this.inner.as_mut().expect("polled after completion").as_mut().poll(cx);
+        };
+        *ctl.outer.lock().unwrap() = Some(cx.waker().clone());
+        if ctl.grants.load(Ordering::SeqCst) == 0 {
+            return Poll::Pending;
+        }
+        ctl.grants.fetch_sub(1, Ordering::SeqCst);
+        ctl.woken.store(false, Ordering::SeqCst);
+        let waker = Waker::from(Arc::new(FlagWaker { ctl: ctl.clone() }));
+        let mut inner_cx = Context::from_waker(&waker);
+        let r = this
+            .inner
+            .as_mut()
+            .expect("polled after completion")
+            .as_mut()
+            .poll(&mut inner_cx);
+        if r.is_ready() {
+            // drop the future's captured values now, exactly as an uncontrolled task would
+            this.inner = None;
+            ctl.done.store(true, Ordering::SeqCst);
+        }
+        ctl.polls.fetch_add(1, Ordering::SeqCst);
+        r
+    }
+}
+
+impl<F: Future> Drop for Controlled<F> {
+    fn drop(&mut self) {
+        // drop the inner future first (runs lifecycle guards), then publish `done`
+        self.inner = None;
+        if let Some(ctl) = &self.ctl {
+            ctl.done.store(true, Ordering::SeqCst);
+        }
+    }
+}
+
+// ===================================================================================
+// Schedule points for OS threads
+// ===================================================================================
+
+#[derive(Clone, Debug, PartialEq, Eq)]
+pub enum ThreadPhase {
+    Running,
+    AtPoint(&'static str),
+    Done,
+}
+
+struct ThreadInner {
+    phase: ThreadPhase,
+    grants: usize,
+    free: bool,
+}
+
+/// Control block of one harness thread.
+pub struct ThreadCtl {
+    inner: Mutex<ThreadInner>,
+    cv: Condvar,
+}
+
+impl ThreadCtl {
+    pub fn new() -> Arc<Self> {
+        Arc::new(ThreadCtl {
+            inner: Mutex::new(ThreadInner {
+                phase: ThreadPhase::Running,
+                grants: 0,
+                free: false,
+            }),
+            cv: Condvar::new(),
+        })
+    }
+    /// Block until the thread is parked at a point or finished.
+    pub fn wait_parked(&self) -> ThreadPhase {
+        let mut g = self.inner.lock().unwrap();
+        while g.phase == ThreadPhase::Running {
+            g = self.cv.wait(g).unwrap();
+        }
+        g.phase.clone()
+    }
+    /// Like `wait_parked` with a timeout; `None` if the thread is still running
+    /// (e.g. blocked on a lock held by a parked thread).
+    pub fn wait_parked_timeout(&self, d: std::time::Duration) -> Option<ThreadPhase> {
+        let deadline = std::time::Instant::now() + d;
+        let mut g = self.inner.lock().unwrap();
+        while g.phase == ThreadPhase::Running {
+            let now = std::time::Instant::now();
+            if now >= deadline {
+                return None;
+            }
+            let (ng, _) = self.cv.wait_timeout(g, deadline - now).unwrap();
+            g = ng;
+        }
+        Some(g.phase.clone())
+    }
+    /// Let the thread run to its next point.
+    pub fn grant(&self) {
+        let mut g = self.inner.lock().unwrap();
+        g.grants += 1;
+        if matches!(g.phase, ThreadPhase::AtPoint(_)) {
+            g.phase = ThreadPhase::Running;
+        }
+        self.cv.notify_all();
+    }
+    /// Let the thread run freely from now on (no more parking).
+    pub fn release(&self) {
+        let mut g = self.inner.lock().unwrap();
+        g.free = true;
+        if matches!(g.phase, ThreadPhase::AtPoint(_)) {
+            g.phase = ThreadPhase::Running;
+        }
+        self.cv.notify_all();
+    }
+    /// Mark the thread finished (called by the harness thread body when it returns).
+    pub fn finish(&self) {
+        let mut g = self.inner.lock().unwrap();
+        g.phase = ThreadPhase::Done;
+        self.cv.notify_all();
+    }
+    pub fn phase(&self) -> ThreadPhase {
+        self.inner.lock().unwrap().phase.clone()
+    }
+}
+
+thread_local! {
+    static THREAD_CTL: RefCell<Option<Arc<ThreadCtl>>> = const { RefCell::new(None) };
+}
+
+/// Register the calling thread: from now on it parks at every `point`.
+pub fn thread_register(ctl: Arc<ThreadCtl>) {
+    THREAD_CTL.with(|t| *t.borrow_mut() = Some(ctl));
+}
+
+/// Unregister the calling thread.
+pub fn thread_unregister() {
+    THREAD_CTL.with(|t| *t.borrow_mut() = None);
+}
+
+/// A schedule point. No-op for threads that did not register.
+#[inline]
+pub fn point(name: &'static str) {
+    let ctl = THREAD_CTL.with(|t| t.borrow().clone());
+    let Some(ctl) = ctl else { return };
+    let mut g = ctl.inner.lock().unwrap();
+    if g.free {
+        return;
+    }
+    g.phase = ThreadPhase::AtPoint(name);
+    g.grants = 0;
+    ctl.cv.notify_all();
+    while g.grants == 0 && !g.free {
+        g = ctl.cv.wait(g).unwrap();
+    }
+    g.grants = 0;
+    g.phase = ThreadPhase::Running;
+}
